@@ -1,6 +1,7 @@
 package rules
 
 import (
+	"go/token"
 	"go/types"
 	"regexp"
 	"strings"
@@ -38,6 +39,37 @@ func loopLeavesOnlyWithError(l *rangeLoop) (bool, ssa.Instruction) {
 		}
 	}
 	return true, nil
+}
+
+
+// loopCoversAll: the loop runs over the WHOLE sequence: an index loop counts from 0 in steps of 1 up to a bound
+// without arithmetic (i < n, i < len(x), i < t.NumField()); a range loop ranges over a value that is not a
+// sub-slice expression.
+func loopCoversAll(l *rangeLoop) (bool, string) {
+	iff, ok := l.header.Instrs[len(l.header.Instrs)-1].(*ssa.If)
+	if !ok {
+		return true, ""
+	}
+	if l.header.Comment == "rangeindex.loop" {
+		if regexp.MustCompile(`\[[^\]]*:[^\]]*\]$`).MatchString(l.over) {
+			return false, "it ranges over the sub-slice " + l.over
+		}
+		return true, ""
+	}
+	bo, ok := iff.Cond.(*ssa.BinOp)
+	if !ok || bo.Op != token.LSS {
+		return true, "" // not a counting loop: nothing to say
+	}
+	if _, isPhi := bo.X.(*ssa.Phi); !isPhi {
+		return true, ""
+	}
+	if !isCountingPhi(iff.Cond) {
+		return false, "its index does not start at 0 or does not advance by 1"
+	}
+	if b := an.Norm(bo.Y); regexp.MustCompile(` [-+] \d+\)?$`).MatchString(b) {
+		return false, "its bound is " + b
+	}
+	return true, ""
 }
 
 // ruleChildrenAll (L-children-all).
@@ -88,6 +120,11 @@ func ruleChildrenAll(rule string) RuleFn {
 					at = site
 				}
 				c.Check(good, rule, sp.fn+": the loop around "+sp.callee+" visits every position", "left only by exhaustion or an error return", "the loop can be left early without an error (break or success return): the elements after that position are never built, registered or committed", at, nil)
+				if all, why := loopCoversAll(l); !all {
+					c.Bad(rule, sp.fn+": the loop around "+sp.callee+" starts at the first and ends at the last position", "the loop does not run over the whole sequence: "+why+" - the first or last parameter, field or result is silently left out", site, nil)
+				} else {
+					c.OK(rule, sp.fn+": the loop around "+sp.callee+" starts at the first and ends at the last position", l.over, site)
+				}
 			}
 			if found == 0 {
 				c.BadAt(rule, sp.fn+": the loop around "+sp.callee+" visits every position", "no loop around "+sp.callee+" in "+sp.fn+": the children are not all visited", c.P.Pos(fn.Pos()), nil)
